@@ -17,6 +17,8 @@ package head
 //@   requires r != nil
 //@   let b = old(rpos(r)); d = file(r)
 //@   ensures faults(r) > old(faults(r)) ==> err != nil
+//@   ensures reliable(r) ==> faults(r) == old(faults(r))
+//@   ensures faults(r) == old(faults(r)) && b >= 0 && b + 54 <= fsize(r) && be32(d, b) == 65536 && be32(d, b + 12) == 1594834165 ==> err == nil   // a complete table is accepted
 //@   ensures err == nil ==> info != nil && fresh(info) && be32(d, b) == 65536 && be32(d, b + 12) == 1594834165
 //@   ensures err == nil ==> info.FontRevision == be32(d, b + 4) && info.UnitsPerEm == be16(d, b + 18) && info.LowestRecPPEM == be16(d, b + 46) && info.LocaFormat == int16(be16(d, b + 50))
 //@   ensures err == nil ==> info.FontBBox.LLx == int16(be16(d, b + 36)) && info.FontBBox.LLy == int16(be16(d, b + 38)) && info.FontBBox.URx == int16(be16(d, b + 40)) && info.FontBBox.URy == int16(be16(d, b + 42))
@@ -32,3 +34,15 @@ package head
 //@   ensures (be16(res, 16)&1 != 0) == info.HasYBaseAt0 && (be16(res, 16)&2 != 0) == info.HasXBaseAt0 && (be16(res, 16)&4 != 0) == info.IsNonlinear && (be16(res, 16)&16 != 0) == info.IsNonlinear
 //@   ensures (be16(res, 44)&1 != 0) == info.IsBold && (be16(res, 44)&2 != 0) == info.IsItalic && (be16(res, 44)&16 != 0) == info.HasShadow && (be16(res, 44)&32 != 0) == info.IsCondensed && (be16(res, 44)&64 != 0) == info.IsExtended
 //@   modifies nothing
+
+// Round trip (lemma over the contracts of Encode and Read): revision, flags,
+// units per em, bounding box, style bits, lowestRecPPEM and the loca format
+// come back.  Created/Modified go through encodeTime/decodeTime, which are
+// not under contract.
+//@ func verifRoundTrip(info *Info) (res *Info, err error)   props: C12 C01
+//@   requires info != nil
+//@   ensures err == nil && res != nil
+//@   ensures res.FontRevision == info.FontRevision && res.UnitsPerEm == info.UnitsPerEm && res.LowestRecPPEM == info.LowestRecPPEM && res.LocaFormat == info.LocaFormat
+//@   ensures res.FontBBox.LLx == info.FontBBox.LLx && res.FontBBox.LLy == info.FontBBox.LLy && res.FontBBox.URx == info.FontBBox.URx && res.FontBBox.URy == info.FontBBox.URy
+//@   ensures res.HasYBaseAt0 == info.HasYBaseAt0 && res.HasXBaseAt0 == info.HasXBaseAt0 && res.IsNonlinear == info.IsNonlinear
+//@   ensures res.IsBold == info.IsBold && res.IsItalic == info.IsItalic && res.HasShadow == info.HasShadow && res.IsCondensed == info.IsCondensed && res.IsExtended == info.IsExtended
